@@ -33,7 +33,8 @@ var versProbeText = map[string]string{"alpine": "1.0", "cargo": "1.0.0", "deb": 
 	"maven": "1.0", "npm": "1.0.0", "nuget": "1.0.0", "pypi": "1.0", "rpm": "1.0"}
 // witnesses: ordinary versions plus a very low and a very high one, so that whatever bounds an accepted range
 // holds, some witness passes its first constraints and reaches the later ones
-var witnessTexts = []string{"1.0.0", "1.0", "2.0.0", "1.2.3", "v1.0.0", "0.1.0", "0", "0.0.0", "99999.0.0", "99999", "v99999.0.0", "1.0.0-alpha"}
+var witnessTexts = []string{"1.0.0", "1.0", "2.0.0", "1.2.3", "v1.0.0", "0.1.0", "0", "0.0.0", "99999.0.0", "99999", "v99999.0.0", "1.0.0-alpha",
+	"1!0.1", "1:1.0-1", "9223372036854775807.0.0", "9223372036854775807"}
 
 func classify(nilv bool, err error, pan string) int {
 	switch {
@@ -49,6 +50,10 @@ func classify(nilv bool, err error, pan string) int {
 		return 3
 	}
 }
+
+// onlyEcos, when non-empty, restricts runTotal to those ecosystems' own entry points (and skips the VERS calls):
+// used for inputs that were generated for one ecosystem's grammar
+var onlyEcos map[string]bool
 
 func runTotal(s string, tag string, long bool) totalEvent {
 	ev := totalEvent{K: "total", Tag: tag, N: len(s), V: map[string]int{}, R: map[string]int{}, VersR: map[string]int{}, VersP: map[string]int{}}
@@ -84,6 +89,9 @@ func runTotal(s string, tag string, long bool) totalEvent {
 		}
 	}
 	for _, eco := range ecoList {
+		if len(onlyEcos) > 0 && !onlyEcos[eco.Name] {
+			continue
+		}
 		var wit []any
 		for _, w := range witnessTexts {
 			if v, nilv, err, pan := eco.ParseV(w); pan == "" && err == nil && !nilv {
@@ -141,6 +149,9 @@ func runTotal(s string, tag string, long bool) totalEvent {
 			return 2
 		}
 	}
+	if len(onlyEcos) > 0 {
+		return ev
+	}
 	for _, sc := range versSchemes {
 		timed("vers-range:"+sc, func() { ev.VersR[sc] = vc("vers:"+sc+"/"+s, versProbeText[sc]) })
 		timed("vers-probe:"+sc, func() { ev.VersP[sc] = vc("vers:"+sc+"/>="+versProbeText[sc], s) })
@@ -174,6 +185,10 @@ func init() {
 		var inputs [][]int
 		_ = jsonUnmarshal(j["inputs"], &inputs)
 		tag := j.str("tag")
+		onlyEcos = map[string]bool{}
+		for _, e := range j.strs("only") {
+			onlyEcos[e] = true
+		}
 		// long inputs: {unit, n, prefix, suffix}
 		type longIn struct {
 			Unit   []int `json:"unit"`
